@@ -222,6 +222,9 @@ pub fn corpus(tier: Tier) -> Arc<Vec<TDoc>> {
             texts.push(refmodel::text::print_styled(v, 1 + (n / 2 % 2) as u8).into_bytes());
         }
     }
+    for v in univ::d2().iter().step_by(if tier.thorough() { 1 } else { 4 }) {
+        texts.push(refmodel::text::print_styled(v, 3).into_bytes());
+    }
     for v in refmodel::gen::tagv_docs().iter().step_by(if tier.thorough() { 1 } else { 5 }) {
         texts.push(refmodel::text::print(v).into_bytes());
     }
